@@ -130,6 +130,9 @@ def runParseOp (inp out : Json) : Json :=
     let err := jstr (jget run "err")
     if !(tag == "longhand flags" || tag == "shorthand flags") then none
     else if !typedOk then none                     -- what was typed before is not acceptable itself
+    -- a shorthand series in progress whose letters typed so far the program rejects by themselves (e.g. they
+    -- complete a mutually exclusive group): the offered continuation cannot repair that, and the property does not ask it to
+    else if tag == "shorthand flags" && cur.length ≥ 2 && jstr (jget (jget out "typedCurRun") "err") != "" then none
     else if v.endsWith "." then none              -- a dotted group prefix, completed further (C11)
     else if v == "--help" || v == "-h" || v.endsWith "h" && tag == "shorthand flags" && err == "" && !jbool run "ran" then none
     else if err != "" then
